@@ -1011,6 +1011,7 @@ def run(ctx: Ctx, driver_ok: bool) -> None:
         n = ctx.pick(260, 2600)
         cases = witness_cases() + gen_cases(ctx, n)
         union_unit(env, drv)
+        value_constraint_family(ctx)
         reqs: list = []
         pend: list = []
         for case in cases:
@@ -1028,6 +1029,120 @@ def run(ctx: Ctx, driver_ok: bool) -> None:
         ctx.extra['fault_classes'] = G.FAULT_NAMES
     finally:
         env.close()
+
+
+# --------------------------------------------------------------------------------------------
+# value-constraint / whitespace family: agreement of the five core entry points on documents whose verdict
+# hinges on how text is normalised before it is compared with fixed/default values and simple types
+
+VC_XSD = '''<xs:schema xmlns:xs="http://www.w3.org/2001/XMLSchema" elementFormDefault="qualified">
+ <xs:element name="doc"><xs:complexType><xs:choice minOccurs="0" maxOccurs="unbounded">
+  <xs:element name="fs" type="xs:string" fixed="not applicable"/>
+  <xs:element name="ft" type="xs:token" fixed="not applicable"/>
+  <xs:element name="fi" type="xs:integer" fixed="7"/>
+  <xs:element name="fm" fixed="not applicable"><xs:complexType mixed="true"><xs:sequence>
+      <xs:element name="b" type="xs:string" minOccurs="0"/></xs:sequence></xs:complexType></xs:element>
+  <xs:element name="fsc" fixed="7"><xs:complexType><xs:simpleContent><xs:extension base="xs:integer">
+      <xs:attribute name="u" type="xs:string"/></xs:extension></xs:simpleContent></xs:complexType></xs:element>
+  <xs:element name="ds" type="xs:string" default="dflt"/>
+  <xs:element name="di" type="xs:integer" default="3"/>
+  <xs:element name="dm" default="dflt"><xs:complexType mixed="true"><xs:sequence>
+      <xs:element name="b" type="xs:string" minOccurs="0"/></xs:sequence></xs:complexType></xs:element>
+  <xs:element name="ni" type="xs:integer" nillable="true"/>
+  <xs:element name="li"><xs:simpleType><xs:list itemType="xs:integer"/></xs:simpleType></xs:element>
+  <xs:element name="en"><xs:simpleType><xs:restriction base="xs:token"><xs:enumeration value="a b"/>
+      <xs:enumeration value="c"/></xs:restriction></xs:simpleType></xs:element>
+  <xs:element name="mx"><xs:complexType mixed="true"><xs:sequence>
+      <xs:element name="b" type="xs:integer" minOccurs="0" maxOccurs="2"/></xs:sequence>
+      <xs:attribute name="a" type="xs:integer" fixed="1"/></xs:complexType></xs:element>
+  <xs:element name="eo"><xs:complexType><xs:sequence><xs:element name="b" type="xs:integer"/></xs:sequence></xs:complexType></xs:element>
+ </xs:choice></xs:complexType></xs:element>
+</xs:schema>'''
+
+VC_TEXTS = {
+    'fs': ['not applicable', ' not applicable', 'not applicable\n', '\n  not applicable\n ', 'not  applicable', 'other', '', '  '],
+    'ft': ['not applicable', ' not applicable ', '\n not   applicable\n', 'other', '', ' '],
+    'fi': ['7', ' 7 ', '07', '+7', '7.0', '8', '', ' '],
+    'fm': ['not applicable', ' not applicable', '\n  not applicable\n', 'not applicable<b>x</b>', 'other', '', '  '],
+    'fsc': ['7', ' 7\n', '07', '8', ''],
+    'ds': ['', ' ', 'x', ' x '],
+    'di': ['', ' ', '4', ' 4 ', 'x'],
+    'dm': ['', ' ', 'x', '<b>y</b>'],
+    'ni': ['5', ' 5 ', '', 'x'],
+    'li': ['1 2 3', ' 1  2\n3 ', '', '1 x', ' '],
+    'en': ['a b', ' a  b ', 'c', ' c\n', 'a', ''],
+    'mx': ['', 'text', ' t <b>1</b> u ', '<b>1</b><b>x</b>', '<b>1</b><b>2</b><b>3</b>'],
+    'eo': ['<b>1</b>', ' <b>1</b>\n', 'x<b>1</b>', '<b>1</b>y', '<b> 1 </b>'],
+}
+
+
+def core_agreement(ctx: Ctx, schema: Any, xml: str, case: dict) -> None:
+    """is_valid ⇔ iter_errors empty ⇔ validate returns ⇔ strict decode returns ⇔ lax decode has no errors, and
+    strict raises the first lax error -- evaluated directly on the real code for one document"""
+    def first_of(fn):
+        try:
+            fn()
+            return None
+        except Exception as e:   # noqa
+            return e
+    try:
+        errs = list(schema.iter_errors(xml))
+        isv = schema.is_valid(xml)
+        lax = schema.decode(xml, validation='lax')
+    except Exception as e:   # noqa
+        report(ctx, 'an entry point raised in lax/collecting mode', case,
+               {'kind': 'exception', 'exc': type(e).__name__, 'msg': str(e)[:300], 'entry': 'core:lax'})
+        return
+    ev = first_of(lambda: schema.validate(xml))
+    ed = first_of(lambda: schema.decode(xml, validation='strict'))
+    lax_errs = lax[1] if isinstance(lax, tuple) else []
+    verdicts = {'is_valid': bool(isv), 'iter_errors': not errs, 'validate': ev is None,
+                'decode_strict': ed is None, 'decode_lax': not lax_errs}
+    ctx.count('vc:verdict:' + ('valid' if all(verdicts.values()) else 'invalid' if not any(verdicts.values()) else 'SPLIT'))
+    if len(set(verdicts.values())) > 1:
+        only_ref = bool(errs) and all('IDREF' in str(e.reason) or 'not found' in str(e.reason) for e in errs)
+        report(ctx, 'entry points disagree on the verdict of one document', case,
+               {'kind': 'verdict', 'verdicts': verdicts, 'errors': [norm_text(str(e.reason)) for e in errs][:4],
+                'lax_decode_errors': [norm_text(str(e.reason)) for e in lax_errs][:4],
+                'only_reference_errors': only_ref,
+                'dissenting_all_decode': verdicts['decode_strict'] and verdicts['decode_lax'] and not verdicts['is_valid']})
+        return
+    if errs and ev is not None:
+        if norm_text(str(getattr(ev, 'reason', ev))) != norm_text(str(errs[0].reason)):
+            report(ctx, 'validate() does not raise the first error that iter_errors() yields', case,
+                   {'kind': 'first-error', 'raised': norm_text(str(getattr(ev, 'reason', ev))),
+                    'first': norm_text(str(errs[0].reason))})
+    if lax_errs and ed is not None:
+        if norm_text(str(getattr(ed, 'reason', ed))) != norm_text(str(lax_errs[0].reason)):
+            report(ctx, 'strict decode does not raise the first error that lax decode collects', case,
+                   {'kind': 'first-error', 'raised': norm_text(str(getattr(ed, 'reason', ed))),
+                    'first': norm_text(str(lax_errs[0].reason))})
+
+
+def value_constraint_family(ctx: Ctx) -> None:
+    import xmlschema
+    XSI = 'http://www.w3.org/2001/XMLSchema-instance'
+    for cls in (xmlschema.XMLSchema10, xmlschema.XMLSchema11):
+        schema = cls(VC_XSD)
+        docs = []
+        for tag, texts in VC_TEXTS.items():
+            for t in texts:
+                docs.append((tag, f'<doc><{tag}>{t}</{tag}></doc>'))
+                docs.append((tag, f'<doc>\n  <{tag}>{t}</{tag}>\n</doc>'))
+            docs.append((tag, f'<doc><{tag}/></doc>'))
+        docs.append(('ni', f'<doc xmlns:xsi="{XSI}"><ni xsi:nil="true"/><ni xsi:nil="true"> </ni><ni xsi:nil="false">3</ni></doc>'))
+        docs.append(('mx', '<doc><mx a="1">t</mx><mx a=" 1 ">t</mx><mx a="2"/></doc>'))
+        for _ in range(ctx.pick(60, 600)):
+            k = ctx.rng.randint(2, 4)
+            parts = []
+            for _ in range(k):
+                tag = ctx.rng.choice(list(VC_TEXTS))
+                parts.append(f'<{tag}>{ctx.rng.choice(VC_TEXTS[tag])}</{tag}>')
+            docs.append(('multi', '<doc>' + ctx.rng.choice(['', '\n ']).join(parts) + '</doc>'))
+        for tag, xml in docs:
+            case = {'family': 'value-constraints', 'v': cls.XSD_VERSION, 'element': tag, 'xml': xml}
+            ctx.case(case, True, tag='vc/' + cls.XSD_VERSION)
+            core_agreement(ctx, schema, xml, case)
 
 
 def search(ctx: Ctx) -> None:
